@@ -13,7 +13,8 @@ from engine.inline import inlined
 from engine.dataflow import assigned_value, target_names
 from . import helpers as H
 from .c02 import r1_interp
-from .c06 import same_value, resolve_local, binding_loop, comp_generator_of, position_in_target, ordered, hosts_of
+from .c06 import same_value, resolve_local, binding_loop, comp_generator_of, position_in_target, ordered, hosts_of, peel_node_list as _peel_node_list, \
+    r8_column_index_by_presence
 
 PROPERTY = "C08"
 REL = "pyrates/frontend/template/circuit.py"
@@ -40,7 +41,7 @@ EXPLANATION = (
     "helper (and its numpy twin) interpolates column k for element k on the grid it was given.  R7 names of input operators are released (the module-level registry handed to get_unique_label emptied, shrunk or "
     "re-bound, directly or through an alias - effect origins over the whole package) only where the operator cache keyed by those "
     "names (class-level container of the operator template class) is emptied on the same path, in the function itself or in every "
-    "caller.  NOT decided: alignment by execution "
+    "caller.  R8 (= C06-R8) the per-edge column index written by _add_input is looked up by presence, never by truthiness.  NOT decided: alignment by execution "
     "(which step reads which sample inside the solvers: C03), summation of converging inputs (C01-R2), hierarchy nesting of the "
     "input node, Julia/Matlab helpers."
 )
@@ -256,39 +257,6 @@ def _implied_atoms(ctx, f, test: ast.AST, positive: bool, depth: int = 4):
         if (isinstance(test.ops[0], ast.Eq) and positive) or (isinstance(test.ops[0], ast.NotEq) and not positive):
             return [test]
     return []
-
-
-_ORDER_KEEPING = {"list", "tuple"}
-_ORDER_CHANGING = {"sorted": "sorts it", "set": "turns it into a set (arbitrary order, duplicates dropped)",
-                   "frozenset": "turns it into a set (arbitrary order, duplicates dropped)", "reversed": "reverses it",
-                   "unique": "sorts it and drops duplicates", "fromkeys": "drops duplicates", "shuffle": "shuffles it",
-                   "permutation": "shuffles it"}
-
-
-def _peel_node_list(e: ast.AST):
-    """(innermost expression, [(wrapper name, effect)...]) after removing order-keeping wrappers (list, tuple) and recording
-    order-changing / duplicate-dropping ones (sorted, set, reversed, unique, dict.fromkeys, [::-1]); an unknown wrapper stops."""
-    changes = []
-    while True:
-        if isinstance(e, ast.Call) and len(e.args) >= 1 and not isinstance(e.args[0], ast.Starred):
-            nm = call_name(e)
-            if nm in _ORDER_KEEPING and isinstance(e.func, ast.Name) and len(e.args) == 1 and not e.keywords:
-                e = e.args[0]
-                continue
-            if nm in _ORDER_CHANGING:
-                changes.append((nm, _ORDER_CHANGING[nm]))
-                e = e.args[0]
-                continue
-        if isinstance(e, ast.Subscript) and isinstance(e.slice, ast.Slice) and e.slice.lower is None and e.slice.upper is None:
-            st = e.slice.step
-            if st is None:
-                e = e.value
-                continue
-            if isinstance(st, ast.UnaryOp) and isinstance(st.op, ast.USub) and isinstance(st.operand, ast.Constant) and st.operand.value == 1:
-                changes.append(("[::-1]", "reverses it"))
-                e = e.value
-                continue
-        return e, changes
 
 
 def _node_lookup(ctx, f, rid):
@@ -1663,4 +1631,5 @@ RULES = [
     ("C08-R5", r5_empty_selection_reported, 1),
     ("C08-R6", r6_interp_rows, 3),
     ("C08-R7", r7_registry_and_cache_emptied_together, 1),
+    ("C08-R8", r8_column_index_by_presence, 1),        # = C06-R8: the per-edge column index is how input columns reach their unit
 ]
